@@ -34,8 +34,10 @@ def axioms() -> list[z3.BoolRef]:
     ax.append(z3.ForAll([m], f_cnt(m, 0) == 0, patterns=[f_cnt(m, 0)]))
     ax.append(z3.ForAll([m, j], z3.Implies(j >= 0, f_cnt(m, j + 1) == f_cnt(m, j) + z3.If(z3.Select(m, j), 1, 0)),
                         patterns=[f_cnt(m, j + 1)]))
+    # (the downward unfolding cnt(m,j) = cnt(m,j-1) + ... for every count term is a matching loop: each instance makes
+    #  a new count term.  It is only instantiated where the predecessor's count is already a term.)
     ax.append(z3.ForAll([m, j], z3.Implies(j > 0, f_cnt(m, j) == f_cnt(m, j - 1) + z3.If(z3.Select(m, j - 1), 1, 0)),
-                        patterns=[f_cnt(m, j)]))
+                        patterns=[z3.MultiPattern(f_cnt(m, j), f_cnt(m, j - 1))]))
     # prod: prod(s,a,a)=1 ; a<b => prod(s,a,b)=prod(s,a,b-1)*s[b-1]
     ax.append(z3.ForAll([s, a, b], z3.Implies(a >= b, f_prod(s, a, b) == 1), patterns=[f_prod(s, a, b)]))
     ax.append(z3.ForAll([s, a, b], z3.Implies(a < b, f_prod(s, a, b) == f_prod(s, a, b - 1) * z3.Select(s, b - 1)),
